@@ -14,7 +14,7 @@ Definition lpc (ls : nat -> elst) : epc := at_pc (ls O).
 
 Definition in_phase (k : ekind) (pc : epc) (i : N) : Prop :=
   match pc with
-  | LStoreIdle | LEmpty => True
+  | LStoreIdle | LEmpty | LStoreIdle2 => True
   | LDrainPtr w _ | LDrain w _ => w <= widx k i
   | _ => False
   end.
@@ -22,7 +22,7 @@ Definition in_phase (k : ekind) (pc : epc) (i : N) : Prop :=
 Definition role (t : nat) (pc : epc) : Prop :=
   match pc with
   | PIdle => True
-  | LWait _ | LStoreIdle | LEmpty | LDrainPtr _ _ | LDrain _ _ => t = O
+  | LWait _ | LStoreIdle | LEmpty | LStoreIdle2 | LDrainPtr _ _ | LDrain _ _ => t = O
   | NAct _ | NActCas _ _ | NCasIP _ | NTrig _ | NCasPN _ => t <> O
   end.
 
@@ -270,7 +270,7 @@ Qed.
 Lemma safe_true_of_st g lp i x : st g <> Idle -> safe true g lp i x.
 Proof. intros H. unfold safe. destruct (st g); [congruence|right; right; left; auto|right; left; auto]. Qed.
 
-Ltac fields := cbn [kind cap tcap pdist after_wait after_empty words st trig notified_total delivered_total covered done_idx lost
+Ltac fields := cbn [kind cap tcap repaired pdist after_wait after_empty words st trig notified_total delivered_total covered done_idx lost
                     upd_real activated returned drained prog at_pc ffull my_idx set_l set_li] in *.
 
 Theorem step_inv t c c' e : Inv c -> step1 step t c = Some (c', e) -> Inv c'.
@@ -282,7 +282,7 @@ Proof.
   pose proof (HL t) as [Hrole Hpc].
   assert (Hn0 : forall i, notified_total g i <= notified_total g i) by (intros; lia).
   unfold step in Est.
-  destruct (at_pc (ls t)) as [|i|i cur|i|i|i|m| | |w tot|w tot] eqn:Epc; cbn [role] in Hrole.
+  destruct (at_pc (ls t)) as [|i|i cur|i|i|i|m| | | |w tot|w tot] eqn:Epc; cbn [role] in Hrole.
   - (* PIdle *)
     destruct (prog (ls t)) as [|[i|m] p]; [discriminate| |].
     + destruct t as [|u].
@@ -378,6 +378,11 @@ Proof.
   - (* LEmpty *)
     subst t. inversion Est; subst g' l' e'; clear Est.
     apply (inv_listener_step g); auto; fields.
+    + apply sp_inphase; intros; destruct (repaired g); cbn; auto. lia.
+    + split; destruct (repaired g); cbn; auto. destruct HD as [Hc _]. destruct (kind g); unfold nwords; [divlia|lia].
+  - (* LStoreIdle2 *)
+    subst t. inversion Est; subst g' l' e'; clear Est.
+    apply (inv_listener_step g); auto; fields.
     + apply sp_inphase; intros; cbn. lia.
     + split; cbn; auto. destruct HD as [Hc _]. destruct (kind g); unfold nwords; [divlia|lia].
   - (* LDrainPtr *)
@@ -399,7 +404,7 @@ Proof.
 Qed.
 
 (* ---------------- reachable configurations ---------------- *)
-Lemma inv_init k c tc po pd lp np ff : 0 < c -> Inv (init k c tc po pd lp np ff).
+Lemma inv_init rp k c tc po pd lp np ff : 0 < c -> Inv (init rp k c tc po pd lp np ff).
 Proof.
   intros Hc. unfold Inv, init. cbn [fst snd]. split; [|split].
   - split; [exact Hc|]. intros i. unfold g_init, zero. cbn.
@@ -408,8 +413,8 @@ Proof.
   - intros t. unfold lpc. destruct t; split; cbn; auto.
 Qed.
 
-Theorem inv_reach k c tc po pd lp np ff cf :
-  0 < c -> reachable step (init k c tc po pd lp np ff) cf -> Inv cf.
+Theorem inv_reach rp k c tc po pd lp np ff cf :
+  0 < c -> reachable step (init rp k c tc po pd lp np ff) cf -> Inv cf.
 Proof.
   intros Hc. apply (inv_reachable _ _ _ step Inv).
   - apply inv_init; auto.
@@ -417,11 +422,11 @@ Proof.
 Qed.
 
 (* ---------------- no phantom ---------------- *)
-Theorem ev_no_phantom k c tc po pd lp np ff g ls i :
-  0 < c -> reachable step (init k c tc po pd lp np ff) (g, ls) ->
+Theorem ev_no_phantom rp k c tc po pd lp np ff g ls i :
+  0 < c -> reachable step (init rp k c tc po pd lp np ff) (g, ls) ->
   delivered_total g i <= notified_total g i.
 Proof.
-  intros Hc Hr. destruct (inv_reach _ _ _ _ _ _ _ _ _ Hc Hr) as ([_ HD] & _). cbn [fst] in HD.
+  intros Hc Hr. destruct (inv_reach _ _ _ _ _ _ _ _ _ _ Hc Hr) as ([_ HD] & _). cbn [fst] in HD.
   specialize (HD i). destruct (kind g); destruct HD as (H1 & H2 & H3 & H4 & H5); lia.
 Qed.
 
@@ -446,12 +451,12 @@ Qed.
 
 (* what a Drain step of word w reports: exactly ids of that word with a pending occurrence,
    with their pending count; such ids were notified *)
-Theorem ev_reported_was_notified k c tc po pd lp np ff g ls w i n :
-  0 < c -> reachable step (init k c tc po pd lp np ff) (g, ls) ->
+Theorem ev_reported_was_notified rp k c tc po pd lp np ff g ls w i n :
+  0 < c -> reachable step (init rp k c tc po pd lp np ff) (g, ls) ->
   In (i, n) (reports (kind g) w (words g w)) ->
   0 < n /\ n = pend (kind g) (words g) i /\ widx (kind g) i = w /\ n <= notified_total g i + two64 * lost g i.
 Proof.
-  intros Hc Hr Hin. destruct (inv_reach _ _ _ _ _ _ _ _ _ Hc Hr) as ([_ HD] & _). cbn [fst] in HD.
+  intros Hc Hr Hin. destruct (inv_reach _ _ _ _ _ _ _ _ _ _ Hc Hr) as ([_ HD] & _). cbn [fst] in HD.
   specialize (HD i). unfold reports, pend, widx in *. destruct (kind g).
   - apply bit_reports_in in Hin. destruct Hin as (-> & b & _ & Hb & -> & Ht). cbn in Hb.
     assert (E1 : (8 * w + b) / 8 = w) by divlia. assert (E2 : (8 * w + b) mod 8 = b) by divlia.
@@ -463,23 +468,23 @@ Proof.
 Qed.
 
 (* ---------------- merged, never dropped ---------------- *)
-Theorem ev_counting_conservation k c tc po pd lp np ff g ls i :
-  0 < c -> reachable step (init k c tc po pd lp np ff) (g, ls) -> kind g = ECounting ->
+Theorem ev_counting_conservation rp k c tc po pd lp np ff g ls i :
+  0 < c -> reachable step (init rp k c tc po pd lp np ff) (g, ls) -> kind g = ECounting ->
   delivered_total g i + pend (kind g) (words g) i + two64 * lost g i = notified_total g i /\
   (notified_total g i - delivered_total g i < two64 ->
    delivered_total g i + pend (kind g) (words g) i = notified_total g i).
 Proof.
-  intros Hc Hr Ek. destruct (inv_reach _ _ _ _ _ _ _ _ _ Hc Hr) as ([_ HD] & _). cbn [fst] in HD.
+  intros Hc Hr Ek. destruct (inv_reach _ _ _ _ _ _ _ _ _ _ Hc Hr) as ([_ HD] & _). cbn [fst] in HD.
   specialize (HD i). rewrite Ek in *. unfold pend. destruct HD as (H1 & H2 & H3 & H4 & H5).
   assert (T : two64 = 18446744073709551616) by reflexivity. split; [exact H4|]. rewrite T in *. lia.
 Qed.
 
-Theorem ev_bitset_pending_iff k c tc po pd lp np ff g ls i :
-  0 < c -> reachable step (init k c tc po pd lp np ff) (g, ls) -> kind g = EBitSet ->
+Theorem ev_bitset_pending_iff rp k c tc po pd lp np ff g ls i :
+  0 < c -> reachable step (init rp k c tc po pd lp np ff) (g, ls) -> kind g = EBitSet ->
   (pend (kind g) (words g) i = 1 <-> covered g i < notified_total g i) /\ pend (kind g) (words g) i <= 1 /\
   delivered_total g i <= covered g i.
 Proof.
-  intros Hc Hr Ek. destruct (inv_reach _ _ _ _ _ _ _ _ _ Hc Hr) as ([_ HD] & _). cbn [fst] in HD.
+  intros Hc Hr Ek. destruct (inv_reach _ _ _ _ _ _ _ _ _ _ Hc Hr) as ([_ HD] & _). cbn [fst] in HD.
   specialize (HD i). rewrite Ek in *. unfold pend. destruct HD as (H1 & H2 & H3 & H4 & H5).
   destruct (N.testbit (words g (i / 8)) (i mod 8)).
   - split; [split; [intros _; apply H5; auto|auto]|split; [lia|auto]].
@@ -488,12 +493,12 @@ Qed.
 
 (* a notifier that has activated id i and not yet returned: its activation has been taken by a
    Drain step already or the id is still pending (bit set) *)
-Theorem ev_bitset_my_activation k c tc po pd lp np ff g ls t i :
-  0 < c -> reachable step (init k c tc po pd lp np ff) (g, ls) -> kind g = EBitSet ->
+Theorem ev_bitset_my_activation rp k c tc po pd lp np ff g ls t i :
+  0 < c -> reachable step (init rp k c tc po pd lp np ff) (g, ls) -> kind g = EBitSet ->
   (at_pc (ls t) = NCasIP i \/ at_pc (ls t) = NTrig i \/ at_pc (ls t) = NCasPN i) ->
   my_idx (ls t) <= covered g i \/ pend (kind g) (words g) i = 1.
 Proof.
-  intros Hc Hr Ek Hpc. destruct (inv_reach _ _ _ _ _ _ _ _ _ Hc Hr) as ([_ HD] & _ & HL). cbn [fst snd] in *.
+  intros Hc Hr Ek Hpc. destruct (inv_reach _ _ _ _ _ _ _ _ _ _ Hc Hr) as ([_ HD] & _ & HL). cbn [fst snd] in *.
   specialize (HD i). specialize (HL t). destruct HL as [_ HL]. rewrite Ek in *. unfold pend.
   destruct HD as (H1 & H2 & H3 & H4 & H5).
   assert (Hx : my_idx (ls t) <= notified_total g i).
@@ -503,21 +508,21 @@ Proof.
 Qed.
 
 (* a pending occurrence stays pending until the Drain step of its word, which reports it *)
-Theorem ev_pending_until_drained k c tc po pd lp np ff cf t cf' es i :
-  0 < c -> reachable step (init k c tc po pd lp np ff) cf ->
+Theorem ev_pending_until_drained rp k c tc po pd lp np ff cf t cf' es i :
+  0 < c -> reachable step (init rp k c tc po pd lp np ff) cf ->
   step1 step t cf = Some (cf', es) ->
   0 < pend (kind (fst cf)) (words (fst cf)) i -> pend (kind (fst cf)) (words (fst cf)) i + 1 < two64 ->
   0 < pend (kind (fst cf')) (words (fst cf')) i \/
   exists w tot, at_pc (snd cf t) = LDrain w tot /\ widx (kind (fst cf)) i = w /\
                 In (ERet (rep_code (i, pend (kind (fst cf)) (words (fst cf)) i))) es.
 Proof.
-  intros Hc Hr Hs Hp Hnw. pose proof (inv_reach _ _ _ _ _ _ _ _ _ Hc Hr) as (HD & _ & HL).
+  intros Hc Hr Hs Hp Hnw. pose proof (inv_reach _ _ _ _ _ _ _ _ _ _ Hc Hr) as (HD & _ & HL).
   destruct cf as [g ls]. cbn [fst snd] in *. unfold step1 in Hs. cbn [fst snd] in Hs.
   destruct (step t g (ls t)) as [[[g' l'] e']|] eqn:Est; [|discriminate].
   inversion Hs; subst cf' es; clear Hs. cbn [fst snd].
   specialize (HL t). destruct HL as [_ Hpc]. unfold step in Est.
   assert (T : two64 = 18446744073709551616) by reflexivity.
-  destruct (at_pc (ls t)) as [|j|j cur|j|j|j|m| | |w tot|w tot] eqn:Epc.
+  destruct (at_pc (ls t)) as [|j|j cur|j|j|j|m| | | |w tot|w tot] eqn:Epc.
   - destruct (prog (ls t)) as [|[j|m] p]; [discriminate| |].
     + destruct t; [inversion Est; subst; auto|].
       destruct (N.leb (cap g) j); inversion Est; subst; auto.
@@ -543,6 +548,7 @@ Proof.
   - inversion Est; subst; fields; auto.
   - inversion Est; subst; fields; auto.
   - inversion Est; subst; fields; auto.
+  - inversion Est; subst; fields; auto.
   - assert (Hdr : 0 < pend (kind g) (words (drained g w)) i \/ widx (kind g) i = w /\
                   In (ERet (rep_code (i, pend (kind g) (words g) i)))
                      (map (fun r => ERet (rep_code r)) (reports (kind g) w (words g w)))).
@@ -564,31 +570,31 @@ Qed.
 (* an undelivered returned notification is always covered by a promise: the flag is Notified
    (the listener's next state check drains) or the listener is between its wake-up and the
    Drain of the id's word *)
-Theorem ev_wakeup_invariant k c tc po pd lp np ff cf i :
-  0 < c -> reachable step (init k c tc po pd lp np ff) cf -> undelivered (fst cf) i ->
+Theorem ev_wakeup_invariant rp k c tc po pd lp np ff cf i :
+  0 < c -> reachable step (init rp k c tc po pd lp np ff) cf -> undelivered (fst cf) i ->
   st (fst cf) = Notified \/ in_phase (kind (fst cf)) (listener_pc cf) i.
 Proof.
-  intros Hc Hr Hu. destruct (inv_reach _ _ _ _ _ _ _ _ _ Hc Hr) as (_ & HW & _).
+  intros Hc Hr Hu. destruct (inv_reach _ _ _ _ _ _ _ _ _ _ Hc Hr) as (_ & HW & _).
   specialize (HW i). unfold undelivered in Hu. destruct HW as [H|[H|[[H _]|H]]]; auto; [lia|discriminate].
 Qed.
 
 (* the bad window is the ONLY way to lose a wake-up *)
-Theorem ev_lost_wakeup_only_in_bad_window k c tc po pd lp np ff cf i :
-  0 < c -> reachable step (init k c tc po pd lp np ff) cf -> asleep cf -> undelivered (fst cf) i -> bad_window cf.
+Theorem ev_lost_wakeup_only_in_bad_window rp k c tc po pd lp np ff cf i :
+  0 < c -> reachable step (init rp k c tc po pd lp np ff) cf -> asleep cf -> undelivered (fst cf) i -> bad_window cf.
 Proof.
   intros Hc Hr Ha Hu. split; [exact Ha|].
-  destruct (ev_wakeup_invariant _ _ _ _ _ _ _ _ _ _ Hc Hr Hu) as [H|H]; [exact H|].
+  destruct (ev_wakeup_invariant _ _ _ _ _ _ _ _ _ _ _ Hc Hr Hu) as [H|H]; [exact H|].
   destruct Ha as [Ha _]. rewrite Ha in H. contradiction.
 Qed.
 
 (* the bad window is ENTERED only by a notifier's late Pending -> Notified CAS while the listener
    already sleeps on the empty trigger (the token that notifier posted has been consumed) *)
-Theorem ev_bad_window_entry k c tc po pd lp np ff cf t cf' es :
-  0 < c -> reachable step (init k c tc po pd lp np ff) cf ->
+Theorem ev_bad_window_entry rp k c tc po pd lp np ff cf t cf' es :
+  0 < c -> reachable step (init rp k c tc po pd lp np ff) cf ->
   step1 step t cf = Some (cf', es) -> ~ bad_window cf -> bad_window cf' ->
   asleep cf /\ st (fst cf) = Pending /\ t <> O /\ exists i, at_pc (snd cf t) = NCasPN i.
 Proof.
-  intros Hc Hr Hs Hnb Hb. pose proof (inv_reach _ _ _ _ _ _ _ _ _ Hc Hr) as (_ & _ & HL).
+  intros Hc Hr Hs Hnb Hb. pose proof (inv_reach _ _ _ _ _ _ _ _ _ _ Hc Hr) as (_ & _ & HL).
   destruct cf as [g ls]. cbn [fst snd] in *. unfold step1 in Hs. cbn [fst snd] in Hs.
   destruct (step t g (ls t)) as [[[g' l'] e']|] eqn:Est; [|discriminate].
   inversion Hs; subst cf' es; clear Hs.
@@ -597,19 +603,20 @@ Proof.
   destruct t as [|u].
   - (* the listener itself cannot enter the window: it reaches LWait only after seeing a state other than Notified *)
     exfalso. rewrite upd_l_same in Hpc'.
-    destruct (at_pc (ls O)) as [|j|j cur|j|j|j|m| | |w tot|w tot] eqn:Epc; cbn [role] in Hrole; try congruence.
+    destruct (at_pc (ls O)) as [|j|j cur|j|j|j|m| | | |w tot|w tot] eqn:Epc; cbn [role] in Hrole; try congruence.
     + destruct (prog (ls O)) as [|[j|m] p]; [discriminate| |].
       * inversion Est; subst. discriminate.
       * destruct (st g) eqn:Es; inversion Est; subst; fields; try discriminate; congruence.
     + destruct (N.eqb (trig g) 0); [destruct m|]; inversion Est; subst; discriminate.
     + inversion Est; subst; discriminate.
+    + inversion Est; subst; fields. destruct (repaired g); discriminate.
     + inversion Est; subst; discriminate.
     + inversion Est; subst; discriminate.
     + destruct (N.leb (nwords (kind g) (cap g)) (w + 1)); inversion Est; subst; discriminate.
   - rewrite upd_l_other in Hpc' by discriminate.
     assert (Hnb' : ~ (trig g = 0 /\ st g = Notified)).
     { intros [A B]. apply Hnb. split; [split|]; auto. }
-    destruct (at_pc (ls (S u))) as [|j|j cur|j|j|j|m| | |w tot|w tot] eqn:Epc; cbn [role] in Hrole; try discriminate.
+    destruct (at_pc (ls (S u))) as [|j|j cur|j|j|j|m| | | |w tot|w tot] eqn:Epc; cbn [role] in Hrole; try discriminate.
     + exfalso. destruct (prog (ls (S u))) as [|[j|m] p]; [discriminate| |].
       * destruct (N.leb (cap g) j); inversion Est; subst; auto.
       * inversion Est; subst; auto.
@@ -631,7 +638,7 @@ Theorem ev_blocked_only_in_blocking_wait t g l :
   step t g l = None -> (at_pc l = PIdle /\ prog l = []) \/ (at_pc l = LWait WBlock /\ trig g = 0).
 Proof.
   unfold step. intros H.
-  destruct (at_pc l) as [|j|j cur|j|j|j|m| | |w tot|w tot] eqn:Epc.
+  destruct (at_pc l) as [|j|j cur|j|j|j|m| | | |w tot|w tot] eqn:Epc.
   - left. split; auto. destruct (prog l) as [|[j|m] p]; auto; exfalso.
     + destruct t; [discriminate|]. destruct (N.leb (cap g) j); discriminate.
     + destruct t; [|discriminate]. destruct (st g); discriminate.
@@ -644,5 +651,189 @@ Proof.
   - discriminate.
   - discriminate.
   - discriminate.
+  - discriminate.
   - exfalso. destruct (N.leb (nwords (kind g) (cap g)) (w + 1)); discriminate.
+Qed.
+
+(* ================= the repaired protocol: full no-lost-wake-up ================= *)
+(* a wake-up is available or on its way: a token is in the trigger, or a notifier is between its
+   Idle -> Pending CAS (or its observation of Pending) and its trigger post *)
+Definition Tok (g : egst) (ls : nat -> elst) : Prop := 0 < trig g \/ exists t j, at_pc (ls t) = NTrig j.
+
+(* the configurations in which the flag alone does not guarantee that the listener will look again *)
+Definition need (lp : epc) (s : nst) : Prop :=
+  match lp, s with
+  | (PIdle | LDrainPtr _ _ | LDrain _ _), Pending => True
+  | LWait _, (Pending | Notified) => True
+  | _, _ => False
+  end.
+
+Definition TInv (c : cfg egst elst) : Prop := need (lpc (snd c)) (st (fst c)) -> Tok (fst c) (snd c).
+
+Lemma tok_keep g ls g' t l' :
+  Tok g ls -> (0 < trig g -> 0 < trig g') -> (forall j, at_pc (ls t) <> NTrig j) -> Tok g' (upd_l ls t l').
+Proof.
+  intros [H|(u & j & H)] Ht Hn; [left; auto|]. right. exists u, j.
+  destruct (Nat.eq_dec u t) as [->|E]; [exfalso; eapply Hn; eauto|]. rewrite upd_l_other; auto.
+Qed.
+
+Lemma tok_new g ls t l' j : at_pc l' = NTrig j -> Tok g (upd_l ls t l').
+Proof. intros H. right. exists t, j. rewrite upd_l_same. exact H. Qed.
+
+Lemma lpc_upd ls t l : lpc (upd_l ls t l) = match t with O => at_pc l | S _ => lpc ls end.
+Proof. destruct t; [apply lpc_upd_self|apply lpc_upd_other; discriminate]. Qed.
+
+Theorem step_tinv t c c' e :
+  repaired (fst c) = true -> tcap (fst c) <> Some 0 ->
+  Inv c -> TInv c -> step1 step t c = Some (c', e) -> TInv c'.
+Proof.
+  destruct c as [g ls]. intros Hrp Htc HI HT Hs. unfold step1 in Hs. cbn [fst snd] in *.
+  destruct (step t g (ls t)) as [[[g' l'] e']|] eqn:Est; [|discriminate].
+  inversion Hs; subst c' e; clear Hs.
+  destruct HI as (_ & _ & HL). cbn [fst snd] in HL.
+  pose proof (HL t) as [Hrole _]. unfold TInv in *. cbn [fst snd] in *. rewrite lpc_upd.
+  unfold step in Est.
+  (* a step that changes neither the flag nor the listener's phase, does not take tokens, and is not a post *)
+  assert (Hsame : forall (g1 : egst) (l1 : elst), st g1 = st g -> (0 < trig g -> 0 < trig g1) ->
+            (forall j, at_pc (ls t) <> NTrig j) ->
+            match t with O => at_pc l1 | S _ => lpc ls end = lpc ls ->
+            need (match t with O => at_pc l1 | S _ => lpc ls end) (st g1) -> Tok g1 (upd_l ls t l1)).
+  { intros g1 l1 E1 E2 E3 E4 Hn. rewrite E4, E1 in Hn. apply (tok_keep g); auto. }
+  destruct (at_pc (ls t)) as [|i|i cur|i|i|i|m| | | |w tot|w tot] eqn:Epc; cbn [role] in Hrole.
+  - (* PIdle *)
+    destruct (prog (ls t)) as [|[i|m] p]; [discriminate| |].
+    + destruct t as [|u].
+      * inversion Est; subst g' l' e'; clear Est. apply Hsame; auto; try discriminate; try (unfold lpc; rewrite Epc; reflexivity).
+      * destruct (N.leb (cap g) i); inversion Est; subst g' l' e'; clear Est; apply Hsame; auto; discriminate.
+    + destruct t as [|u].
+      * destruct (st g) eqn:Es; inversion Est; subst g' l' e'; clear Est; cbn [set_l at_pc upd_real st]; rewrite ?Es; cbn [need]; try (intros []).
+        apply (tok_keep g); auto; [|rewrite Epc; discriminate]. apply HT. unfold lpc. rewrite Epc. exact I.
+      * inversion Est; subst g' l' e'; clear Est. apply Hsame; auto; discriminate.
+  - (* NAct *)
+    destruct t as [|u]; [congruence|].
+    destruct (kind g); [destruct (N.testbit (words g (i / 8)) (bitno i))|]; inversion Est; subst g' l' e'; clear Est;
+      apply Hsame; auto; discriminate.
+  - (* NActCas *)
+    destruct t as [|u]; [congruence|].
+    destruct (N.eqb (words g (i / 8)) cur); [|destruct (N.testbit (words g (i / 8)) (bitno i))]; inversion Est; subst g' l' e'; clear Est;
+      apply Hsame; auto; discriminate.
+  - (* NCasIP *)
+    destruct t as [|u]; [congruence|].
+    destruct (st g) eqn:Es; inversion Est; subst g' l' e'; clear Est.
+    + intros _. eapply tok_new. reflexivity.
+    + intros _. eapply tok_new. reflexivity.
+    + apply Hsame; auto; discriminate.
+  - (* NTrig *)
+    destruct t as [|u]; [congruence|].
+    assert (Hfull : trig_full g = true -> 0 < trig g).
+    { unfold trig_full. destruct (tcap g) as [c0|]; [|discriminate]. intros H. apply N.leb_le in H.
+      destruct (N.eq_dec c0 0) as [->|]; [congruence|lia]. }
+    destruct (trig_full g) eqn:Ef.
+    + destruct (ffull (ls (S u))); inversion Est; subst g' l' e'; clear Est; intros _; left; auto.
+    + inversion Est; subst g' l' e'; clear Est. intros _. left. cbn [upd_real trig]. lia.
+  - (* NCasPN *)
+    destruct t as [|u]; [congruence|].
+    destruct (st g) eqn:Es; inversion Est; subst g' l' e'; clear Est.
+    + apply Hsame; auto; discriminate.
+    + (* the late Pending -> Notified CAS: a promise existed for Pending already *)
+      cbn [returned st]. intros Hn. apply (tok_keep g); auto; [|rewrite Epc; discriminate].
+      apply HT. destruct (lpc ls); cbn [need] in *; auto.
+    + apply Hsame; auto; discriminate.
+  - (* LWait *)
+    subst t. destruct (N.eqb (trig g) 0); [destruct m|]; inversion Est; subst g' l' e'; clear Est; cbn [set_l at_pc need]; intros [].
+  - (* LStoreIdle *)
+    subst t. inversion Est; subst g' l' e'; clear Est; cbn [set_l at_pc need]. intros [].
+  - (* LEmpty: the repaired protocol goes on to its second reset *)
+    subst t. inversion Est; subst g' l' e'; clear Est; cbn [set_l at_pc]. rewrite Hrp. cbn [need]. intros [].
+  - (* LStoreIdle2 *)
+    subst t. inversion Est; subst g' l' e'; clear Est; cbn [set_l at_pc upd_real st need]. intros [].
+  - (* LDrainPtr *)
+    subst t. inversion Est; subst g' l' e'; clear Est. cbn [set_l at_pc]. intros Hn.
+    apply (tok_keep g); auto; [|rewrite Epc; discriminate]. apply HT. unfold lpc. rewrite Epc. exact Hn.
+  - (* LDrain *)
+    subst t. destruct (N.leb (nwords (kind g) (cap g)) (w + 1)); inversion Est; subst g' l' e'; clear Est;
+      cbn [set_l at_pc drained st trig]; intros Hn;
+      (apply (tok_keep g); [|cbn [drained trig]; auto|rewrite Epc; discriminate]); apply HT; unfold lpc; rewrite Epc;
+      destruct (st g); cbn [need] in *; auto.
+Qed.
+
+Lemma step_static t g l g' l' e :
+  step t g l = Some (g', l', e) -> repaired g' = repaired g /\ tcap g' = tcap g.
+Proof.
+  unfold step. intros H.
+  repeat match type of H with
+         | context [match ?x with _ => _ end] => destruct x eqn:?
+         end; try discriminate; inversion H; subst; cbn; auto.
+Qed.
+
+Definition Inv2 (c : cfg egst elst) : Prop :=
+  Inv c /\ repaired (fst c) = true /\ tcap (fst c) <> Some 0 /\ TInv c.
+
+Theorem inv2_reach k c tc po pd lp np ff cf :
+  0 < c -> tc <> Some 0 -> reachable step (init true k c tc po pd lp np ff) cf -> Inv2 cf.
+Proof.
+  intros Hc Htc. apply (inv_reachable _ _ _ step Inv2).
+  - split; [apply inv_init; auto|]. split; [reflexivity|]. split; [exact Htc|].
+    unfold TInv, init, lpc. cbn. intros [].
+  - intros t c0 c' e (HI & Hrp & Ht & HT) Hs. split; [eapply step_inv; eauto|].
+    assert (Hst : repaired (fst c') = repaired (fst c0) /\ tcap (fst c') = tcap (fst c0)).
+    { destruct c0 as [g ls]. unfold step1 in Hs. cbn [fst snd] in *.
+      destruct (step t g (ls t)) as [[[g' l'] e']|] eqn:Est; [|discriminate]. inversion Hs; subst. cbn [fst].
+      eapply step_static; eauto. }
+    destruct Hst as [E1 E2]. rewrite E1, E2. split; auto. split; auto. eapply step_tinv; eauto.
+Qed.
+
+(* FULL no-lost-wake-up clause for the repaired protocol: whenever the listener is in (or about to
+   enter) a wait on the trigger while a notification whose notify returned Ok is undelivered, a token
+   is in the trigger or a notifier is between its state CAS and its trigger post *)
+Theorem ev_no_lost_wakeup k c tc po pd lp np ff cf m i :
+  0 < c -> tc <> Some 0 -> reachable step (init true k c tc po pd lp np ff) cf ->
+  listener_pc cf = LWait m -> undelivered (fst cf) i -> Tok (fst cf) (snd cf).
+Proof.
+  intros Hc Htc Hr Hpc Hu. destruct (inv2_reach _ _ _ _ _ _ _ _ _ Hc Htc Hr) as (_ & _ & _ & HT).
+  destruct (ev_wakeup_invariant _ _ _ _ _ _ _ _ _ _ _ Hc Hr Hu) as [H|H].
+  - apply HT. unfold listener_pc, lpc in *. rewrite Hpc, H. exact I.
+  - rewrite Hpc in H. contradiction.
+Qed.
+
+(* the same for a notification whose notify has not returned yet but has passed its trigger post *)
+Theorem ev_inflight_has_token k c tc po pd lp np ff cf m t i :
+  0 < c -> tc <> Some 0 -> reachable step (init true k c tc po pd lp np ff) cf ->
+  listener_pc cf = LWait m -> at_pc (snd cf t) = NCasPN i -> covered (fst cf) i < my_idx (snd cf t) ->
+  Tok (fst cf) (snd cf).
+Proof.
+  intros Hc Htc Hr Hpc Ht Hcov. destruct (inv2_reach _ _ _ _ _ _ _ _ _ Hc Htc Hr) as ((_ & _ & HL) & _ & _ & HT).
+  specialize (HL t). destruct HL as [_ HL]. rewrite Ht in HL. destruct HL as (_ & _ & Hs).
+  unfold listener_pc, lpc in *. unfold TInv in HT. unfold lpc in HT.
+  destruct Hs as [H|[H|[[_ H]|H]]].
+  - lia.
+  - apply HT. rewrite Hpc, H. exact I.
+  - apply HT. rewrite Hpc, H. exact I.
+  - rewrite Hpc in H. contradiction.
+Qed.
+
+(* hence no sleeping listener with an undelivered notification is ever stuck: the in-flight post
+   is enabled and puts a token into the trigger; in particular no such state is terminal *)
+Theorem ev_sleeping_listener_gets_token k c tc po pd lp np ff cf i :
+  0 < c -> tc <> Some 0 -> reachable step (init true k c tc po pd lp np ff) cf ->
+  asleep cf -> undelivered (fst cf) i ->
+  exists t j cf' es, at_pc (snd cf t) = NTrig j /\ step1 step t cf = Some (cf', es) /\ 0 < trig (fst cf').
+Proof.
+  intros Hc Htc Hr [Hpc Htr] Hu.
+  destruct (ev_no_lost_wakeup _ _ _ _ _ _ _ _ _ _ _ Hc Htc Hr Hpc Hu) as [H|(t & j & H)]; [lia|].
+  destruct (inv2_reach _ _ _ _ _ _ _ _ _ Hc Htc Hr) as (_ & _ & Ht0 & _).
+  destruct cf as [g ls]. cbn [fst snd] in *. exists t, j.
+  unfold step1, step. cbn [fst snd]. rewrite H.
+  assert (Ef : trig_full g = false).
+  { unfold trig_full. destruct (tcap g) as [c0|]; auto. apply N.leb_gt. destruct (N.eq_dec c0 0); [congruence|lia]. }
+  rewrite Ef. eexists. eexists. split; [reflexivity|]. split; [reflexivity|]. cbn. lia.
+Qed.
+
+Theorem ev_no_terminal_lost_wakeup k c tc po pd lp np ff cf i :
+  0 < c -> tc <> Some 0 -> reachable step (init true k c tc po pd lp np ff) cf ->
+  (forall t, step1 step t cf = None) -> asleep cf -> ~ undelivered (fst cf) i.
+Proof.
+  intros Hc Htc Hr Hterm Ha Hu.
+  destruct (ev_sleeping_listener_gets_token _ _ _ _ _ _ _ _ _ _ Hc Htc Hr Ha Hu) as (t & j & cf' & es & _ & Hs & _).
+  rewrite Hterm in Hs. discriminate.
 Qed.
